@@ -770,9 +770,12 @@ def vla(p):
     for i in spread(lines_of(p, "decl")):
         parts = list(p.lines[i].parts)
         if parts[-1] == ";" and "[" not in parts:
-            q = mod_line(p, i, parts[:-1] + ["[nn];"])
-            if fits(q, i):
-                yield q, [i + 1]
+            # the variable dimension in every position of a 1..3-dimensional array, and inside an expression
+            forms = ["[nn]", "[4][nn]", "[nn][4]", "[2][4][nn]", "[2][nn][4]", "[nn + 1]", "[4][nn * 2]"]
+            for k, f in enumerate(forms):
+                q = mod_line(p, i, parts[:-1] + [f + ";"])
+                if fits(q, i):
+                    yield q, [i + 1], "dim:" + f.replace("nn", "n")
 
 
 @op("29_space_after_pointer_star", "SPC_AFTER_POINTER")
